@@ -54,7 +54,7 @@ def run(ctx):
                    "identifier/share copied, verifying share and key taken from the verification, and the threshold "
                    "recorded from the commitment length without truncation; the share check compares G*s with the "
                    "commitment evaluated at the share's own identifier over every coefficient; every generated share "
-                   "enters both output maps and each verifying share is G * that share; recorded threshold = t.")
+                   "enters both output maps and each verifying share is G * that share; recorded threshold = t. Kernels (any form: loop or iterator chain): Horner evaluation over coefficients[1..] reversed plus c_0; reconstruct returns the sum over every given package of lambda_i(0; all given identifiers)*s_i.")
     ctx.undecided = "the polynomial identities (degree exactly t-1, reconstruction values): numeric."
     ctx.floor = 20
     refusal_inventory(ctx)
